@@ -6,6 +6,7 @@ code on every check (G1): they are re-proved against what the code does now.
 -/
 import DarsiaModel.Indexing
 import DarsiaGen.IndexingTables
+import DarsiaProofs.Slice
 namespace Darsia.C20
 open Darsia
 
@@ -132,6 +133,36 @@ theorem slice_by_name_selects_voxel :
     ∀ d ∈ Dim.all, ∀ a ∈ d.cartAxes, ∃ p ∈ List.range 3, ∃ r ∈ [true, false],
       Gen.interpret a d.mat = .ok (p, r) ∧ ∀ v ∈ List.range (baseExtent p), Gen.sliceSel a d v = .ok v := by
   decide
+
+/-- NAME = INDEX FOR ALL SHAPES (model `DarsiaModel.Slice` of `Image.slice` on the C01 coordinate-system model): for every
+well-formed geometry (any dimension 1–3, any shape, dimensions, origin), every Cartesian axis name `a`, every voxel layer
+`v` of the matrix axis `p` the coordinate system assigns to `a` and every offset `t ∈ [0, 1)` inside that layer,
+`Image.slice(cut, a)` with `cut` = the coordinate of that point (on reversed axes the coordinate DEcreases with the index)
+selects exactly what `Image.slice(v, p)` selects: the same matrix axis and the same index. The code converts the vector that
+is ZERO in all other components — generally a point outside the image; `voxel_named_component_only` (DarsiaProofs.Slice)
+shows the other components cannot matter. Uses `to_matrix_agrees_interpret` (generated tables) and the floor round trip
+of C01. `slice_by_name_selects_voxel` below remains as the tabulated check of the running code on one shape. -/
+theorem slice_name_eq_index (cs : CS) (hcs : cs.ok) (a : Ax) (ha : a ∈ cs.dim.cartAxes) (v : Nat) (t : Rat)
+    (ht0 : 0 ≤ t) (ht1 : t < 1) :
+    ∃ p r, Gen.interpret a cs.dim.mat = .ok (p, r) ∧ p < cs.dim.toNat ∧
+      (v < listGetD cs.shape p 0 →
+        sliceByName cs a (layerCoordinate cs a.pos (p, r) v t) = sliceByIndex cs p v ∧
+        sliceByIndex cs p v = .ok (p, (v : Int))) := by
+  have hd : cs.dim ∈ Dim.all := by cases cs.dim <;> decide
+  obtain ⟨m, hmm, r, _, hm, hint⟩ := to_matrix_agrees_interpret cs.dim hd a ha
+  have hmat : m.isCart = false := by
+    revert hmm; cases cs.dim <;> cases m <;> decide
+  have hp : m.pos < cs.dim.toNat := by
+    revert hmm; cases cs.dim <;> cases m <;> decide
+  refine ⟨m.pos, r, hint, hp, fun _ => ?_⟩
+  have hidx : sliceByIndex cs m.pos (v : Int) = .ok (m.pos, (v : Int)) := by simp [sliceByIndex, hp]
+  exact ⟨by rw [hidx]; exact sliceByName_layer cs hcs a ha m r hm hint hmat v t ht0 ht1, hidx⟩
+
+/-- non-vacuity of `slice_name_eq_index`: a 3-D 2×3×5 geometry with a far origin; name `y` (matrix axis 2, reversed),
+layer 4, offset ¾. -/
+example : sliceByName ⟨.d3, [2, 3, 5], [1, 3 / 2, 10], [1000000, -7, 1 / 8]⟩ .y
+    (layerCoordinate ⟨.d3, [2, 3, 5], [1, 3 / 2, 10], [1000000, -7, 1 / 8]⟩ 1 (2, true) 4 (3 / 4)) = .ok (2, 4) := by
+  decide +kernel
 
 /-- non-vacuity: the 3-D tables are populated (the hypotheses of the layout theorems are met). -/
 example : (Gen.m2c .d3).toOption.map List.length = some 3 ∧ (Gen.c2m .d3).toOption.map List.length = some 3 := by decide
